@@ -46,14 +46,26 @@ def _work(args):
     targets = inv_targets(F) if record_inv else None
     for p in paths:
         b = F.bodies[p]
-        I = Interp(F, M, inv, max_depth=depth, budget=budget)
-        I.inv_targets = targets
-        I.trusted_ctx = _TRUSTED
-        I.rootset = _ROOTSET
         err = None
         t0 = time.time()
+        I = None
+        used_depth = depth
+        for d_try in range(depth, -1, -1):
+            I = Interp(F, M, inv, max_depth=d_try, budget=budget)
+            I.inv_targets = targets
+            I.trusted_ctx = _TRUSTED
+            I.rootset = _ROOTSET
+            try:
+                I.analyze_root(b)
+            except Exception as e:
+                err = traceback.format_exc()
+                break
+            used_depth = d_try
+            if not any(e[0] == "abort" for e in I.sink.events):
+                break
         try:
-            I.analyze_root(b)
+            if used_depth != depth:
+                I.sink.events.append(("reduced_depth", p, used_depth))
             # closures handed to unmodelled adapters: analyse with unconstrained arguments
             done = 0
             while I.pending_closures and done < 50:
@@ -359,10 +371,12 @@ def aggregate(F, results, roots=None):
             k = (fn, site, kind, desc)
             s = sites.get(k)
             if s is None:
-                s = sites[k] = {"n": 0, "fail": [], "sp": sp, "trivial": True, "expn": expn}
+                s = sites[k] = {"n": 0, "fail": [], "sp": sp, "trivial": True, "expn": expn, "fail_chains": set()}
             s["n"] += 1
             if not trivial:
                 s["trivial"] = False
+            if not proved and len(s["fail_chains"]) < 40:
+                s["fail_chains"].add((r["root"],) + tuple(c[0] for c in ctx))
             if not proved and len(s["fail"]) < 3:
                 s["fail"].append((r["root"], ctx, detail))
             elif not proved:
